@@ -282,8 +282,67 @@ pub fn check_inprocess(c: &Case) -> (Verdict, Info) {
                     info,
                 );
             }
+            if let Verdict::Fail(sg, d) = reuse_check(c) {
+                return (Verdict::Fail(sg, d), info);
+            }
             (Verdict::Pass, info)
         }
+    }
+}
+
+/// "A run ... ends in exactly the machine state obtained by creating a machine with that program and
+/// configuration": also for a configuration value that has run before and whose (public) fields were
+/// changed since — the same value run twice gives the same result, and after changing program, budget
+/// and schedules the next run is the run of the *new* settings.
+fn reuse_check(c: &Case) -> Verdict {
+    const OTHER: &str = "#! mrasm\n LD R0, 0x22\n ST (0xFE), R0\n INC R0\n ST (0xFF), R0\n STOP\n";
+    let mut cfg = RunnerConfigBuilder::default()
+        .with_machine_config(machine_config(c))
+        .with_max_cycles(c.cycles)
+        .with_resets(c.resets.clone())
+        .with_interrupts(c.interrupts.clone())
+        .with_program(&c.program)
+        .build()
+        .expect("runner config");
+    let first = match catch(|| cfg.run().map(|r| (r.machine, r.emulated_cycles))) {
+        Ok(Ok(x)) => x,
+        _ => return Verdict::Pass, // judged by the caller
+    };
+    match catch(|| cfg.run().map(|r| (r.machine, r.emulated_cycles))) {
+        Ok(Ok(second)) => {
+            if second != first {
+                return Verdict::Fail("run:second-run-of-the-same-config-differs".into(), "running the same configuration value twice gives two different results".into());
+            }
+        }
+        Ok(Err(e)) => return Verdict::Fail("run:second-run-of-the-same-config-differs".into(), format!("second run failed: {}", e)),
+        Err(p) => return Verdict::Fail(format!("run:{}", panic_signature(&p)), p),
+    }
+    // change the settings of the used value
+    let mut c2 = c.clone();
+    c2.program = if c.expect_salt % 3 == 0 { c.program.clone() } else { OTHER.to_string() };
+    c2.cycles = c.cycles / 2 + (c.expect_salt as usize % 40);
+    c2.interrupts = c.resets.clone();
+    c2.resets = c.interrupts.iter().map(|x| x / 2).collect();
+    cfg.program = &c2.program;
+    cfg.max_cycles = c2.cycles;
+    cfg.interrupts = c2.interrupts.clone();
+    cfg.resets = c2.resets.clone();
+    let reference = match catch(|| reference(&c2)) {
+        Ok(Some(x)) => x,
+        _ => return Verdict::Pass,
+    };
+    match catch(|| cfg.run().map(|r| (r.machine, r.emulated_cycles))) {
+        Ok(Ok((m, n))) => {
+            if n != reference.1 || m != reference.0 {
+                return Verdict::Fail(
+                    "run:reused-config-runs-stale-settings".into(),
+                    format!("after changing program/budget/schedules of a configuration that had already run, run() reports {} cycles and a final machine that {} the stepped reference of the new settings ({} cycles)", n, if m == reference.0 { "equals" } else { "differs from" }, reference.1),
+                );
+            }
+            Verdict::Pass
+        }
+        Ok(Err(e)) => Verdict::Fail("run:accepted-program-refused".into(), format!("run() of the changed configuration failed: {}", e)),
+        Err(p) => Verdict::Fail(format!("run:{}", panic_signature(&p)), p),
     }
 }
 
